@@ -42,7 +42,8 @@ ASSUMPTIONS = [
 SHARDS = {"quick": 4, "thorough": 16}
 
 EXACT_RES = [10.0, 0.5, 30.0, 0.25, 1.0, 100.0]
-GEN_RES = [7.3, 0.1, 1 / 3.0, 10.0, 30.0, 0.5]
+# the last four: within 1e-6 of an integer / of 1/integer without being one (round 8, C14-21)
+GEN_RES = [7.3, 0.1, 1 / 3.0, 10.0, 30.0, 0.5, 30.0000004, 9.9999995, 1 / 3600.0000002, 1 / 4.0000003]
 CHEAP_SPELL = ["int", "str_lower", "str_upper", "str_mixed", "odc"]
 MAX_TILES = 4000  # cap on what a query may return before we stop iterating
 
@@ -628,7 +629,7 @@ DIAMOND = [(0, 2), (1, 3), (3, 1), (2, 0)]
 
 
 @st.composite
-def s_poly_shape(draw, offs, kinds=("box", "box", "tri", "tri", "L", "hole", "diamond", "two_row", "two_col", "two_diag", "two_tri_box", "two_box_tri")):
+def s_poly_shape(draw, offs, kinds=("box", "box", "tri", "tri", "L", "hole", "big_hole", "diamond", "two_row", "two_col", "two_diag", "two_tri_box", "two_box_tri")):
     kind = draw(st.sampled_from(list(kinds)))
     multi = kind.startswith("two")
     if kind in ("two_tri_box", "two_box_tri"):
@@ -667,10 +668,15 @@ def s_poly_shape(draw, offs, kinds=("box", "box", "tri", "tri", "L", "hole", "di
         w, h = draw(st.sampled_from([2, 3])), draw(st.sampled_from([2, 3]))
         cx, cy = draw(st.integers(1, w - 1)), draw(st.integers(1, h - 1))
         rings = [[(0, 0), (0, h), (cx, h), (cx, cy), (w, cy), (w, 0)]]
+    elif kind == "big_hole":
+        # a rectangle whose hole strictly contains whole tiles: those tiles do not overlap the query (round 8, C14-20)
+        n = draw(st.sampled_from([5, 5, 6]))
+        m = draw(st.sampled_from([n - 1, n - 1, n - 2]))
+        rings = [[(0, 0), (0, n), (n, n), (n, 0)], [(1, 1), (m, 1), (m, m), (1, m)]]
     else:
         rings = [[(0, 0), (0, 3), (3, 3), (3, 0)], [(1, 1), (2, 1), (2, 2), (1, 2)]]
     o = st.sampled_from(offs)
-    if kind in ("box", "L", "hole") or multi:
+    if kind in ("box", "L", "hole", "big_hole") or multi:
         # rectilinear: one offset per distinct grid line keeps edges axis-parallel
         xs = {x for ring in rings for x, _ in ring}
         ys = {y for ring in rings for _, y in ring}
